@@ -163,7 +163,8 @@ def must_fail():
 def run_unit(desc):
     h = SchedDispHarness().run()
     rep = {"unit": f"{FILE}::ScheduledDisposable", "kind": "function contracts against the scheduler and SingleAssignmentDisposable contracts",
-           "functions": h.functions, "results": [r.as_dict() for r in h.results], "unsupported": h.unsupported, "spec_validation": [], "bounded": []}
+           "functions": h.functions, "results": [r.as_dict() for r in h.results], "unsupported": h.unsupported, "spec_validation": [], "bounded": [],
+           "replayable": {"runner": "scheddisprun.py", "module": "-", "name": "ScheduledDisposable"}}
     if desc.get("tier") == "thorough" and not h.unsupported:
         mf = must_fail()
         rep["must_fail"] = dict(mf, unit=rep["unit"])
